@@ -15,11 +15,11 @@ from farm import Farm, Case
 from genlib import gen_request, generate
 
 OUT_KINDS = ["Int", "Float", "String", "Boolean", "ID", "Date", "Role", "Obj", "Iface", "Uni"]
-IN_KINDS = ["Int", "Float", "String", "Boolean", "ID", "Date", "Role", "InObj"]
+IN_KINDS = ["Int", "Float", "String", "Boolean", "ID", "Date", "Role", "InObj", "RecIn"]
 ALIASES = {"Boolean": "bool", "Float": "f64", "Int": "i64", "ID": "String"}
 LEAF_VALUE = {"Int": 7, "Float": 1.5, "String": "s", "Boolean": True, "ID": "x", "Date": "d", "Role": "A",
               "Obj": {"x": 1}, "Iface": {"__typename": "Obj", "x": 1}, "Uni": {"__typename": "Obj", "x": 1},
-              "InObj": {"x": 1}}
+              "InObj": {"x": 1}, "RecIn": {"x": 1}}
 
 
 def base_types():
@@ -29,10 +29,13 @@ def base_types():
         gql.obj("Obj", [("x", "Int")], ["Iface"]),
         gql.union("Uni", ["Obj"]),
         gql.inp("InObj", [("x", "Int")]),
+        # an input object that contains itself: references to it may get a `Box` around the WHOLE field type, but the
+        # Option / Vec nesting inside is the rule's
+        gql.inp("RecIn", [("x", "Int"), ("next", "RecIn")]),
     ]
 
 
-DEFAULT_LEAF = {"Int": "5", "Float": "1.5", "String": '"s"', "Boolean": "true", "ID": '"x"', "Role": "A", "InObj": "{x: 1}"}
+DEFAULT_LEAF = {"Int": "5", "Float": "1.5", "String": '"s"', "Boolean": "true", "ID": '"x"', "Role": "A", "InObj": "{x: 1}", "RecIn": "{x: 1}"}
 
 
 def default_literal(t, leaf):
@@ -141,7 +144,7 @@ def build_case(kind, position, exprs):
             vars_.append(("v%d" % i, gql.type_str(t), None))
             expected["v%d" % i] = (t, kind)
             # the same expression on a variable that declares a default value in the operation
-            if kind in DEFAULT_LEAF and kind not in ("InObj", "Role"):   # (enum / input-object default literals: recorded findings of C02)
+            if kind in DEFAULT_LEAF and kind not in ("InObj", "Role", "RecIn"):   # (enum / input-object default literals: recorded findings of C02)
                 vars_.append(("w%d" % i, gql.type_str(t), default_literal(t, DEFAULT_LEAF[kind])))
                 expected["w%d" % i] = (t, kind)
         doc = gql.Doc([gql.Op("query", "Op", [gql.Field("a")], vars_)])
@@ -262,6 +265,8 @@ def run(tier):
             got = found.get(wire)
             if got is not None:
                 got = got.replace("::std::option::", "").replace("std::option::", "").replace("::std::vec::", "").replace("std::vec::", "")
+            if got is not None and c["kind"] == "RecIn" and got.startswith("Box<") and got.endswith(">"):
+                got = got[4:-1]   # the indirection of a recursive input (C12's subject) wraps the field type as a whole
             if got != want:
                 rep.violation("modifier_rule", dict(label, type_expr=gql.type_str(t), wire=wire),
                               "emitted %r, rule says %r" % (got, want))
@@ -310,7 +315,7 @@ def run(tier):
         "traces_validated_against_impl": validated,
         "evaluations": len(reqs) + validated, "distinct_nontrivial": states,
         "rule": "state = (type expression of list depth <= 4, kind of named type, position, schema format); all 62 "
-                "expressions x 10 output / 8 input kinds x 7 positions (response fields that carry @skip / @include themselves, fields of an object below a conditional inline fragment, response field, variable, input field - also with a declared default value -, @oneOf member, field of an object that narrows an interface's declaration) x 2 formats (the @oneOf position only for "
+                "expressions x 10 output / 9 input kinds (incl. a self-recursive input object, whose outer Box is ignored) x 7 positions (response fields that carry @skip / @include themselves, fields of an object below a conditional inline fragment, response field, variable, input field - also with a declared default value -, @oneOf member, field of an object that narrows an interface's declaration) x 2 formats (the @oneOf position only for "
                 "nullable outermost expressions); transition = comparison of the emitted field type with the "
                 "model rule, plus one conformance run per (field, null injected at nesting level) on compiled code",
         "exhaustive": True,
